@@ -129,10 +129,33 @@ def check_row_sites(prog: Program, rep, rule: str) -> None:
             record_result_names.add(p.target.id)
         elif isinstance(p, ast.Assign) and isinstance(p.targets[0], ast.Name):
             record_result_names.add(p.targets[0].id)
+    loop_assigned = set()
+    for n_ in ast.walk(F.loop):
+        if isinstance(n_, ast.Name) and isinstance(n_.ctx, ast.Store):
+            loop_assigned.add(n_.id)
     for idx, call in enumerate(F.row_calls):
         a = F.row_args(call)
         site = f'row site #{idx + 1} (line {call.lineno})'
         key = f'site{idx + 1}'
+        # a row built inside a nested function (closure / comprehension helper): its free variables are read when the
+        # function runs, not when the sample was taken
+        encl = call
+        while encl is not None and not isinstance(encl, (ast.FunctionDef, ast.Lambda)):
+            encl = getattr(encl, '_parent', None)
+        if encl is not None and encl is not F.func.node:
+            local = {x.arg for x in ast.walk(encl.args) if isinstance(x, ast.arg)} | \
+                    {x.id for x in ast.walk(encl) if isinstance(x, ast.Name) and isinstance(x.ctx, ast.Store)}
+            stale = sorted({x.id for v_ in a.values() for x in ast.walk(v_)
+                            if isinstance(x, ast.Name) and x.id not in local and x.id in loop_assigned})
+            if stale:
+                rep.fail(rule, mod.path, call.lineno, fq, f'{key}:closure',
+                         f'{site} is inside `{getattr(encl, "name", "lambda")}`, which reads {stale} of the integration loop as free '
+                         f'variables: the row gets their values at the time that function runs (after later steps), not '
+                         f'those of the step the sample was taken in')
+            else:
+                rep.undecided(rule, mod.where(call), site, 'built inside a nested function from its own arguments: the '
+                              'arguments are not traced to the sample')
+            continue
         missing = [p for p in ('time', 'velocity_vector', 'velocity', 'mach', 'spin_drift', 'look_angle', 'weight')
                    if p not in a]
         if missing:
@@ -195,8 +218,10 @@ def check_row_sites(prog: Program, rep, rule: str) -> None:
                                for k in rc.keywords) for rc in F.record_calls)
             ok = rc_ok
             why = 'should_record is not given the speed of sound of the density call'
+        elif not any(isinstance(x, (ast.Name, ast.Attribute)) for x in ast.walk(m)):
+            why = f'Mach reference argument is the constant expression {norm(m)}'
         else:
-            why = f'Mach reference argument is {norm(m)}'
+            raise AnalysisError(f'{site}: the Mach reference argument `{norm(m)}` cannot be traced to a definition')
         if ok:
             rep.ok(rule, mod.where(call), f'{site}: speed of sound comes from the density call')
         else:
